@@ -14,6 +14,8 @@ CONSTANTS
   BitmapExcludeExact = TRUE
   ProvidersAgree = TRUE
   DeleteDropsPacked = FALSE
+  CgHonoursShallow = TRUE
+  Focus = "all"
 INVARIANT TypeOK
 INVARIANT RefsTransparent
 VIEW view
